@@ -72,6 +72,8 @@ SENSITIVITY = [
     "sycamore: ISWAP**t accepted as ISWAP",
     "sycamore: rzz picks wrong branch near theta=0",
     "sycamore: swap+zz inner rzz angle sign",
+    "three-qubit identity shortcut with default rtol (reverts f29c081)",
+    "kak_vector face window with default rtol (reverts 632d107)",
 ]
 
 
